@@ -167,6 +167,16 @@ Theorem c18_bert_slices_relock : forall v g k, synced v = false -> state v < 512
 Proof. exact bert_slices_relock_lemma. Qed.
 Print Assumptions c18_bert_slices_relock.
 
+(** reset(): every member is assigned (read from the source), so a reset validator is exactly a new one with a zeroed window,
+    whatever it held before - in particular a partial lock run (sync_count) does not survive - and it satisfies the hypotheses of
+    c18_lock_within_27 / c18_lock_then_count / c18_bert_slices_relock. *)
+Theorem c18_reset_is_fresh : forall v : prbs,
+  prbs_reset v = mkPRBS 1 false 0 0 0 (repeat 0 16) 0 0 /\
+  synced (prbs_reset v) = false /\ state (prbs_reset v) < 512 /\ sync_count (prbs_reset v) <= 9 /\
+  bit_count (prbs_reset v) < 2 ^ 32 /\ err_count (prbs_reset v) < 2 ^ 32.
+Proof. exact reset_is_fresh. Qed.
+Print Assumptions c18_reset_is_fresh.
+
 (** 10. every state reachable through the API (construction with any history content, reset(), generate(), validate() of
         any bit) has a 9-bit register, sync_count <= 17, hist_pos < 128 and 16 history bytes: so the hypotheses of 6'', 6'''
         cover every reachable unsynced state, and every history[hist_pos >> 3] access is inside the array *)
